@@ -13,8 +13,9 @@ written here from the docstrings and the property statement:
   the separately traced chief ray (vkit.oracles.coddington), pupil aberration from the real stop
   coordinates and the ABCD marginal ray, ray operands against the indexed surface record.
 
-Known-defect mechanisms are modelled as "as-built" predictions (alt=) under a mechanism key computed
-from the class of the case only.
+No known-defect mechanism is modelled any more: the five defects this check found (primary index into the caller's
+wavelength list, object heights treated as angles, grid x flip for object heights, axial point in the grid maximum,
+duplicate wavelength key in the ray fan) were repaired in the library, so a regression is a plain violation.
 """
 import copy
 import math
@@ -27,7 +28,8 @@ from vkit.oracles import coddington as COD
 ID = 'C12'
 RULE = ('random axially symmetric lenses from vkit.lens.gen_axial (2-8 interfaces; planes, spheres, conics, even '
         'aspheres without r^2 term; 50 % catalogue glasses so that wavelengths differ; image surface at the paraxial '
-        'focus or elsewhere; finite and infinite objects; angle and object-height fields along y; 1-3 wavelengths; '
+        'focus or elsewhere, plane or (30 %, field curvature 60 %) a sphere/conic of |R| = 2-20 focal lengths of either '
+        'sign, in the field-curvature family 30 % tilted about x by 0.03-0.25 rad; finite and infinite objects; angle and object-height fields along y; 1-3 wavelengths; '
         '25 % with vignetting factors; mirrors only in the families that do not use the ABCD oracle) plus 8 bundled '
         'samples; each case exercises ONE analysis family (spot, rms-vs-field, ray fan, encircled energy, distortion, '
         'grid distortion, field curvature, pupil aberration, operands) with a random distribution name / ray count / '
@@ -56,7 +58,10 @@ ASSUMPTIONS = ['the public tracer (Optic.trace / trace_generic) is the ray sourc
                'tangential/sagittal curvatures from the sag derivatives; compared in units of f + shift^2/f because the '
                "library's parabasal-pair intersection (delta = 1e-5) has an absolute error in vergence; measured worst "
                '2.3e-7 of that unit over 8500 curves x 5-40 field points (typical 4e-8 per 250 lenses), tolerance 5e-6 '
-               '(> 20x margin; a missing direction-cosine projection or a swapped T/S pair is >= 1e-4)',
+               '(> 20x margin; a missing direction-cosine projection or a swapped T/S pair is >= 1e-4); the shift is '
+               "z(focus) - z(chief ray's own point on the image surface), which is what the library's t*N of a parabasal "
+               'ray is to first order in delta, also on a curved or x-tilted image surface; dropping the z difference of a '
+               'SAGITTAL pair is second order in delta (its L is O(delta)) and therefore not decidable',
                'ray fans: the reference chief ray is traced on its own; tolerance 1e-10 for closed-form lenses, 1e-6 when '
                'the lens has an iterated (even-asphere) surface whose batch-wide Newton stopping rule makes a ray traced '
                'alone differ from the same ray in a fan by ~1e-8 on the image (C13 owns batch independence)',
@@ -84,13 +89,6 @@ ANCHORS = [('optiland.analysis.spot_diagram', 'SpotDiagram._generate_field_data'
            ('optiland.optimization.operand.ray', 'RayOperand.M'),
            ('optiland.optimization.operand.ray', 'RayOperand.N'),
            ('optiland.optimization.operand.ray', 'RayOperand.rms_spot_size')]
-
-# mechanism keys of known / suspected defects (class predicates are computed in the clause code)
-M_IDX = 'analysis-primary-index-into-caller-list'
-M_HA = 'distortion-height-field-as-angle'
-M_GX = 'grid-x-flip-height-field'
-M_GN = 'grid-max-nan-centre-point'
-M_DUP = 'fan-duplicate-wavelength-key'
 
 FAMILIES = ['spot', 'rmsfield', 'fan', 'ee', 'distortion', 'grid', 'fieldcurv', 'pupil', 'operands']
 ABCD_FAMILIES = ('distortion', 'grid', 'pupil')
@@ -195,6 +193,20 @@ def _gen_lens(rng, family):
         if any(s.get('type') == 'even_asphere' and s.get('coeffs') and s['coeffs'][0] != 0 for s in spec['surfaces']):
             continue
         break
+    # image surface: plane, or a sphere/conic of |R| = 2..20 focal lengths (both signs); in the field-curvature
+    # family also tilted about x (the meridional plane stays a symmetry plane), so that the two parabasal rays of a
+    # tangential pair are recorded at different z
+    img = spec['surfaces'][-1]
+    img_cls = 'img-plane'
+    f2 = abs(float(L.psys(spec).f2()))
+    if np.isfinite(f2) and f2 > 0 and rng.random() < (0.6 if family == 'fieldcurv' else 0.3):
+        img['radius'] = round(float(L.loguniform(rng, 2.0, 20.0) * f2 * (1 if rng.random() < 0.5 else -1)), 6)
+        if rng.random() < 0.3:
+            img['conic'] = round(float(rng.uniform(-2.0, 1.0)), 6)
+        img_cls = 'img-curved'
+    if family == 'fieldcurv' and rng.random() < 0.3:
+        img['rx'] = round(float(rng.uniform(0.03, 0.25) * (1 if rng.random() < 0.5 else -1)), 6)
+        img_cls += '+tilted-x'
     vig = False
     if family != 'pupil' and rng.random() < 0.25 and len(spec['fields']) > 1:
         for f in spec['fields']:
@@ -202,7 +214,7 @@ def _gen_lens(rng, family):
                 f[1] = round(float(rng.uniform(0, 0.4)), 3)
                 f[2] = round(float(rng.uniform(0, 0.4)), 3)
         vig = True
-    info = dict(info, vig=vig)
+    info = dict(info, vig=vig, img=img_cls)
     return spec, info
 
 
@@ -379,26 +391,29 @@ def _finite(*arrs):
 
 def _idx_class(ctx, W_explicit):
     """Class of an explicit caller wavelength list relative to the lens's own list.
-    -> (primary_in_list, index_of_primary_in_list or None, lens_index_valid, mechanism_applies)"""
+    -> (primary_in_list, index_of_primary_in_list or None)"""
     if W_explicit == 'all':
-        return True, ctx.pi, True, False
+        return True, ctx.pi
     W = list(W_explicit)
     has = ctx.wp in W
-    pos = W.index(ctx.wp) if has else None
-    valid = ctx.pi < len(W)
-    applies = (not has) or pos != ctx.pi
-    return has, pos, valid, applies
+    return has, (W.index(ctx.wp) if has else None)
+
+
+def _list_exception(rec, what, W, ctx, e):
+    """An explicit (documented) wavelength list made the analysis raise a lookup error."""
+    rec.check('explicit-list-no-exception', False,
+              msg=f'{what}(wavelengths={W}) raised {type(e).__name__}: {e} (lens wavelengths {ctx.lw}, primary index '
+                  f'{ctx.pi})', detail=dict(W=W, lens_wavelengths=ctx.lw, primary_index=ctx.pi))
 
 
 # ---------------------------------------------------------------------------
 # families
 
 def _spot_like(ctx, rec, obj, F, W, n, dist, seed, Wexp, clause_prefix='spot'):
-    """Checks shared by SpotDiagram and RmsSpotSizeVsField. Returns number of finite samples."""
+    """Checks shared by SpotDiagram, RmsSpotSizeVsField and EncircledEnergy. Returns the own spots [field][wl]."""
     data = obj.data
     retrace = dist != 'random'
     own = []
-    nfin = 0
     for i, f in enumerate(F):
         row = []
         for j, w in enumerate(W):
@@ -420,19 +435,15 @@ def _spot_like(ctx, rec, obj, F, W, n, dist, seed, Wexp, clause_prefix='spot'):
         own.append(row)
     if clause_prefix != 'spot':
         return own
-    has, pos, valid, applies = _idx_class(ctx, Wexp)
-    flags = (M_IDX,) if applies else ()
+    has, pos = _idx_class(ctx, Wexp)
     try:
         cen = obj.centroid()
         rms = obj.rms_spot_radius()
         geo = obj.geometric_spot_radius()
     except (IndexError, KeyError) as e:
-        if not applies:
+        if Wexp == 'all':
             raise
-        rec.check('explicit-list-no-exception', False, key=f'explicit-list-no-exception:{M_IDX}',
-                  msg=f'SpotDiagram(wavelengths={W}).centroid()/rms_spot_radius() raised {type(e).__name__}: the '
-                      f"lens's primary index {ctx.pi} is used to index the caller's wavelength list",
-                  detail=dict(W=W, lens_wavelengths=ctx.lw, primary_index=ctx.pi, has_primary=has))
+        _list_exception(rec, 'SpotDiagram.centroid/rms_spot_radius', W, ctx, e)
         return own
     if Wexp != 'all':
         rec.check('explicit-list-no-exception', True)
@@ -444,8 +455,7 @@ def _spot_like(ctx, rec, obj, F, W, n, dist, seed, Wexp, clause_prefix='spot'):
         sc = max(1.0, float(np.max(np.abs(own[i][0][1]))))
         if has:
             want_c = _centroid(*own[i][pos][:2])
-            alt_c = _centroid(*own[i][ctx.pi][:2]) if (applies and valid) else None
-            rec.close('spot-centroid', got_c, want_c, 1e-12, scale=sc, alt=alt_c, flags=flags,
+            rec.close('spot-centroid', got_c, want_c, 1e-12, scale=sc,
                       msg=f'centroid of field {f} is not the mean of the primary-wavelength ({ctx.wp}) spot',
                       detail=dict(W=W, primary_index=ctx.pi))
         else:
@@ -455,19 +465,13 @@ def _spot_like(ctx, rec, obj, F, W, n, dist, seed, Wexp, clause_prefix='spot'):
             ok = any(max(abs(got_c[0] - c[0]), abs(got_c[1] - c[1])) <= 1e-12 * sc for c in cands)
             rec.check('spot-centroid', ok, msg='centroid is not the mean of any stored spot (primary absent from list)')
             want_c = got_c
-            alt_c = None
-        want_r, want_g, alt_r, alt_g = [], [], [], []
+        want_r, want_g = [], []
         for j in range(len(W)):
             r, g = _radii(own[i][j][0], own[i][j][1], want_c)
             want_r.append(r); want_g.append(g)
-            if alt_c is not None:
-                r, g = _radii(own[i][j][0], own[i][j][1], alt_c)
-                alt_r.append(r); alt_g.append(g)
         rec.close('spot-rms-radius', np.asarray(rms[i], float), want_r, 1e-10, scale=sc,
-                  alt=(alt_r if alt_c is not None else None), flags=flags if has else (),
                   msg=f'rms_spot_radius()[{i}] != sqrt(mean r^2) about the primary-wavelength centroid')
         rec.close('spot-geometric-radius', np.asarray(geo[i], float), want_g, 1e-10, scale=sc,
-                  alt=(alt_g if alt_c is not None else None), flags=flags if has else (),
                   msg=f'geometric_spot_radius()[{i}] != max r about the primary-wavelength centroid')
     return own
 
@@ -480,26 +484,22 @@ def fam_spot(ctx, rec, c):
     obj = SpotDiagram(ctx.A, fields=Farg, wavelengths=Warg, num_rings=n, distribution=_dist_arg(dist, n, seed))
     own = _spot_like(ctx, rec, obj, F, W, n, dist, seed, Warg)
     nfin = sum(int(np.sum(np.isfinite(r[0]))) for row in own for r in row)
-    return nfin, dict(centroid_example=None)
+    return nfin, {}
 
 
 def fam_rmsfield(ctx, rec, c):
     from optiland.analysis import RmsSpotSizeVsField
     Warg, W = ctx.wl_arg(c.get('wavelengths', 'all'))
     n, dist, seed, nf = c['n'], c['dist'], c.get('dseed', 0), c['num_fields']
-    has, pos, valid, applies = _idx_class(ctx, Warg)
-    flags = (M_IDX,) if applies else ()
+    has, pos = _idx_class(ctx, Warg)
     try:
         obj = RmsSpotSizeVsField(ctx.A, num_fields=nf, wavelengths=Warg, num_rings=n,
                                  distribution=_dist_arg(dist, n, seed))
         got = np.asarray(obj.rms_spot_radius(), float)
     except (IndexError, KeyError) as e:
-        if not applies:
+        if Warg == 'all':
             raise
-        rec.check('explicit-list-no-exception', False, key=f'explicit-list-no-exception:{M_IDX}',
-                  msg=f'RmsSpotSizeVsField(wavelengths={W}) raised {type(e).__name__}: the lens\'s primary index '
-                      f'{ctx.pi} is used to index the caller\'s wavelength list',
-                  detail=dict(W=W, lens_wavelengths=ctx.lw, primary_index=ctx.pi, has_primary=has))
+        _list_exception(rec, 'RmsSpotSizeVsField', W, ctx, e)
         return 0, {}
     if Warg != 'all':
         rec.check('explicit-list-no-exception', True)
@@ -520,17 +520,12 @@ def fam_rmsfield(ctx, rec, c):
         sc = max(1.0, float(np.max(np.abs(own[i][0][1]))))
         if has:
             want_c = _centroid(*own[i][pos][:2])
-            alt_c = _centroid(*own[i][ctx.pi][:2]) if (applies and valid) else None
-        else:
-            # primary absent: reference not fixed by the statement; accept the rms about the centroid of any stored spot
-            want_c, alt_c = None, None
-        if want_c is not None:
             want = [_radii(own[i][j][0], own[i][j][1], want_c)[0] for j in range(len(W))]
-            alt = [_radii(own[i][j][0], own[i][j][1], alt_c)[0] for j in range(len(W))] if alt_c is not None else None
-            rec.close('rms-spot-vs-field', got[i], want, 1e-10, scale=sc, alt=alt, flags=flags,
+            rec.close('rms-spot-vs-field', got[i], want, 1e-10, scale=sc,
                       msg=f'RMS spot size at field {f} != sqrt(mean r^2) about the primary-wavelength centroid',
                       detail=dict(W=W, primary_index=ctx.pi))
         else:
+            # primary absent: reference not fixed by the statement; accept the rms about the centroid of any stored spot
             ok = False
             for jj in range(len(W)):
                 cc = _centroid(*own[i][jj][:2])
@@ -547,16 +542,12 @@ def fam_fan(ctx, rec, c):
     Farg, F = ctx.fields_arg(c.get('fields', 'all'))
     Warg, W = ctx.wl_arg(c.get('wavelengths', 'all'))
     npts = c['num_points']
-    has = ctx.wp in W
     try:
         obj = RayFan(ctx.A, fields=Farg, wavelengths=Warg, num_points=npts)
     except (IndexError, KeyError) as e:
-        if has:
+        if Warg == 'all':
             raise
-        rec.check('explicit-list-no-exception', False, key=f'explicit-list-no-exception:{M_IDX}',
-                  msg=f'RayFan(wavelengths={W}) raised {type(e).__name__}: the lens\'s primary wavelength is used as a '
-                      f'key into the data of the caller\'s wavelength list',
-                  detail=dict(W=W, lens_wavelengths=ctx.lw, primary_index=ctx.pi))
+        _list_exception(rec, 'RayFan', W, ctx, e)
         return 0, {}
     if Warg != 'all':
         rec.check('explicit-list-no-exception', True)
@@ -573,6 +564,10 @@ def fam_fan(ctx, rec, c):
     iterated = any(s_.get('type', 'standard') != 'standard' for s_ in ctx.spec['surfaces'])
     tol_fan = 1e-6 if iterated else 1e-10
     rec.cls('fan-iterated-surface' if iterated else 'fan-closed-form')
+    if len(set(W)) < len(W):
+        rec.cls('fan-duplicate-wavelength')
+    if len(set(F)) < len(F):
+        rec.cls('fan-duplicate-field')
     for f in F:
         Pc, _, _ = ctx.generic(float(f[0]), float(f[1]), 0.0, 0.0, ctx.wp)
         xref, yref = float(Pc[-1, 0, 0]), float(Pc[-1, 0, 1])
@@ -584,17 +579,9 @@ def fam_fan(ctx, rec, c):
             sc = max(1.0, abs(yref))
             got = np.concatenate([np.asarray(e['x'], float), np.asarray(e['y'], float)])
             want = np.concatenate([x - xref, y - yref])
-            mult = W.count(w)
-            fl, alt = (), None
-            if mult > 1:
-                # class: the same wavelength value occurs twice in the list; as built the data is keyed by
-                # str(wavelength), the entries collide and the reference is subtracted once per occurrence
-                fl = (M_DUP,)
-                alt = np.concatenate([x - mult * xref, y - mult * yref])
-                rec.cls('fan-duplicate-wavelength')
-            rec.close('ray-fan', got, want, tol_fan, scale=sc, alt=alt, flags=fl,
+            rec.close('ray-fan', got, want, tol_fan, scale=sc,
                       msg=f'ray fan (field {f}, wavelength {w}) != line_x/line_y image coordinates minus the '
-                          f'primary-wavelength chief ray', detail=dict(xref=xref, yref=yref))
+                          f'primary-wavelength chief ray', detail=dict(xref=xref, yref=yref, W=W, F=F))
             rec.check('ray-fan-intensity', bool(np.array_equal(e['intensity_x'], ix, equal_nan=True)
                                                 and np.array_equal(e['intensity_y'], iy, equal_nan=True)),
                       msg='fan intensities differ from the traced rays')
@@ -688,21 +675,15 @@ def fam_distortion(ctx, rec, c):
             rec.event('rays_recomputed', npts)
             yr = P[-1, :, 1]
             unit = ctx.parax_chief_unit(w)
-            flags, alt = (), None
             if ctx.ftype == 'angle':
                 th = Hy * math.radians(ctx.fmax)
                 yp = unit * (np.tan(th) if dtype == 'f-tan' else th)
             else:
                 # object-height field: the paraxial image height is linear in the object height
                 yp = unit * Hy * ctx.fmax
-                if dtype == 'f-tan':
-                    flags = (M_HA,)
-                    a = math.radians(ctx.fmax)
-                    yp_ab = unit * ctx.fmax * np.tan(Hy * a) / a      # as built: tan(H * radians(h_max))
-                    alt = 100 * (yr - yp_ab) / yp_ab
             want = 100 * (yr - yp) / yp
             got = np.asarray(obj.data[k], float)
-            rec.close('distortion', got, want, 1e-7, alt=alt, flags=flags,
+            rec.close('distortion', got, want, 1e-7,
                       msg=f'{dtype} distortion at wavelength {w} != 100 (y_chief - y_paraxial) / y_paraxial with the '
                           f'paraxial image height on the actual image surface (field type {ctx.ftype})',
                       detail=dict(dtype=dtype, field_type=ctx.ftype, max_field=ctx.fmax, unit=unit))
@@ -727,7 +708,6 @@ def fam_grid(ctx, rec, c):
     rec.close('grid-distortion-real', np.stack([d['xr'], d['yr']]), np.stack([xr, yr]), 1e-12, scale=sc,
               msg='real grid != image coordinates of the chief rays of the (Hx, Hy) grid')
     unit = ctx.parax_chief_unit(w)
-    fx, fy, fm = [], [], []
     if ctx.ftype == 'angle':
         # object-space direction of each launched chief ray: tan(theta_x) = L/N, tan(theta_y) = M/N
         tx = (D[0, :, 0] / D[0, :, 2]).reshape(npts, npts)
@@ -736,45 +716,23 @@ def fam_grid(ctx, rec, c):
             xp, yp = unit * tx, unit * ty
         else:
             xp, yp = unit * np.arctan(tx), unit * np.arctan(ty)
-        # as built: separable in Hx, Hy and the x sign via np.flip of the whole array (exact only up to the rounding
-        # asymmetry of linspace; the centre sample of an odd grid keeps its sign)
-        a = math.radians(ctx.fmax)
-        xp_ab = np.flip(unit * (np.tan(Hx * a) if dtype == 'f-tan' else Hx * a))
-        yp_ab = unit * (np.tan(Hy * a) if dtype == 'f-tan' else Hy * a)
     else:
         # object-height fields: paraxial image = magnification x object point (both reference types)
         xo = P[0, :, 0].reshape(npts, npts)
         yo = P[0, :, 1].reshape(npts, npts)
         xp, yp = unit * xo, unit * yo
-        a = math.radians(ctx.fmax)
-        if dtype == 'f-tan':
-            xp_ab = np.flip(unit * ctx.fmax * np.tan(Hx * a) / a)
-            yp_ab = unit * ctx.fmax * np.tan(Hy * a) / a
-            fx, fy = [M_HA, M_GX], [M_HA]
-        else:
-            xp_ab = np.flip(unit * ctx.fmax * Hx)
-            yp_ab = unit * ctx.fmax * Hy
-            fx, fy = [M_GX], []
-        fm = list(fx)
-    rec.close('grid-distortion-x', d['xp'], xp, 1e-9, scale=sc, alt=(xp_ab if fx else None), flags=tuple(fx),
+    rec.close('grid-distortion-x', d['xp'], xp, 1e-9, scale=sc,
               msg=f'predicted grid x ({dtype}, {ctx.ftype} fields) != paraxial image of the launched field points')
-    rec.close('grid-distortion-y', d['yp'], yp, 1e-9, scale=sc, alt=(yp_ab if fy else None), flags=tuple(fy),
+    rec.close('grid-distortion-y', d['yp'], yp, 1e-9, scale=sc,
               msg=f'predicted grid y ({dtype}, {ctx.ftype} fields) != paraxial image of the launched field points')
-
-    def maxd(xp_, yp_, nan_ok):
-        rp = np.sqrt(xp_ ** 2 + yp_ ** 2)
-        with np.errstate(all='ignore'):
-            v = 100 * np.sqrt((xp_ - xr) ** 2 + (yp_ - yr) ** 2) / rp
-        if nan_ok:
-            return float(np.max(v))
-        v = v[rp > 1e-9 * sc]
-        return float(np.max(v)) if len(v) else float('nan')
-    want = maxd(xp, yp, False)
-    if npts % 2 == 1:
-        fm.append(M_GN)         # the axial grid point (0/0, or the rounding residue of linspace) enters the maximum
-    alt = maxd(xp_ab, yp_ab, True) if fm else None
+    # largest relative departure over the grid points off the axis (the axial point of an odd grid is 0/0)
+    rp = np.sqrt(xp ** 2 + yp ** 2)
+    with np.errstate(all='ignore'):
+        v = 100 * np.sqrt((xp - xr) ** 2 + (yp - yr) ** 2) / rp
+    v = v[rp > 1e-9 * sc]
+    want = float(np.max(v)) if len(v) else float('nan')
+    rec.cls('grid-odd' if npts % 2 else 'grid-even')
     rec.close('grid-distortion-max', float(d['max_distortion']), want, 1e-6, scale=max(1.0, abs(want)),
-              alt=alt, flags=tuple(fm),
               msg='max_distortion != largest relative departure of the real from the paraxial grid (points off axis)',
               detail=dict(num_points=npts, dtype=dtype, field_type=ctx.ftype))
     return int(np.sum(np.isfinite(d['xr']))), {}
@@ -908,6 +866,7 @@ def check_case(case, rec):
     else:
         rec.cls(*L.class_names(case['info']))
         rec.cls('vignetting-factors' if case['info'].get('vig') else 'no-vignetting')
+        rec.cls(case['info'].get('img', 'img-plane'))
     rec.cls(f'family-{fam}', f'field-{ctx.ftype}', f'nwl-{len(ctx.lw)}')
     if 'dist' in c:
         rec.cls(f'dist-{c["dist"]}')
